@@ -300,11 +300,16 @@ def gen_data_spec(rnd, prior_spec, profile=None):
         "gen_seed": rnd.getrandbits(48),
         "orbit_from": None,  # [library index, row] for spike/informative, filled by the caller
         # reference epoch of a single RVData: default (min t), disabled (t_ref=False), or an explicit Time
-        "t_ref_mode": "min" if n_src > 1 else rnd.choice(["min", "min", "min", "min", "false", "explicit"]),
+        # (explicit-<scale>: the same kind of epoch handed over in another time scale -- astropy's default is UTC)
+        # surveys of one multi-source data set need not share a velocity unit (everything is expressed in the first one's)
+        "mixed_units": bool(n_src > 1 and rnd.random() < 0.2),
+        "t_ref_mode": "min" if n_src > 1 else rnd.choice(["min", "min", "min", "min", "false", "explicit", "explicit-utc", "explicit-tdb"]),
     }
 
 
-def build_data(spec, libraries=None):
+def build_data(spec, libraries=None, canonical=False):
+    """canonical=True: the REFERENCE's copy of the same data -- an explicit reference epoch given in another time
+    scale is replaced by the same instant as a TCB Time (converted here, by astropy alone)."""
     import astropy.units as u
     from astropy.time import Time
 
@@ -326,6 +331,15 @@ def build_data(spec, libraries=None):
     elif n_src == 1 and mode == "explicit":
         t_ref = float(np.floor(t_ref)) - 3.5
         kw_tref = {"t_ref": Time(t_ref, format="mjd", scale="tcb")}
+    elif n_src == 1 and mode.startswith("explicit-"):
+        t_ref = float(np.floor(t_ref)) - 3.5
+        user = getattr(Time(t_ref, format="mjd", scale="tcb"), mode.split("-")[1])  # same instant, other scale
+        v = float(user.tcb.mjd)
+        canon = Time(v, format="mjd", scale="tcb")
+        if float(canon.mjd) != v or float(canon.tcb.mjd) != v:
+            user = canon  # (never seen) the instant does not round-trip bit-exactly: keep one representation only
+        t_ref = v
+        kw_tref = {"t_ref": canon if canonical else user}
     amp = 10.0  # km/s
     if profile == "flat":
         err = 1.0e4
@@ -351,19 +365,22 @@ def build_data(spec, libraries=None):
             rv = g.normal(0.0, amp, ne)
         rv = rv + g.normal(0.0, min(err, 2 * amp), ne) * (0.0 if profile == "spike" else 1.0)
         errs = np.full(ne, err) * (1 + 0.3 * g.uniform(size=ne))
-        out.append(
-            tj.RVData(
-                t=Time(t, format="mjd", scale="tcb"),
-                rv=rv * scale * vu,
-                rv_err=errs * scale * vu,
-                **kw_tref,
-            )
-        )
+        vu_k, scale_k = vu, scale
+        if spec.get("mixed_units") and n_src > 1 and k % 2 == 1:
+            vu_k, scale_k = (u.Unit("m/s"), 1000.0) if spec["rv_unit"] == "km/s" else (u.Unit("km/s"), 1.0)
+        rvq, errq = rv * scale_k * vu_k, errs * scale_k * vu_k
+        if canonical:
+            rvq, errq = rvq.to(vu), errq.to(vu)  # the reference's copy: every survey already in the first one's unit
+        out.append(tj.RVData(t=Time(t, format="mjd", scale="tcb"), rv=rvq, rv_err=errq, **kw_tref))
     if spec["container"] == "single":
         return out[0]
     if spec["container"] == "list":
         return out
     return {("s%d" % i): d for i, d in enumerate(out)}
+
+
+def needs_canonical(spec):
+    return str(spec.get("t_ref_mode", "")).startswith("explicit-") or bool(spec.get("mixed_units") and spec.get("n_sources", 1) > 1)
 
 
 def snapshot_data(data):
@@ -394,6 +411,9 @@ class World:
         self.prior = get_prior(config["prior"])
         self.libraries = [Library(s) for s in config["libraries"]]
         self.datasets = [build_data(s, self.libraries) for s in config["datasets"]]
+        # what the references (L*, A*) are computed from; the same objects unless an epoch was given in a non-TCB scale
+        self.ref_datasets = [build_data(s, self.libraries, canonical=True) if needs_canonical(s) else d
+                             for s, d in zip(config["datasets"], self.datasets)]
         self.data_ref = [snapshot_data(d) for d in self.datasets]  # private copies: a call must not edit the user's data
 
     def data_modified_in_place(self):
